@@ -124,15 +124,11 @@ theorem levelOf_lt (p : Int) : levelOf p < nPrio := by
 
 /-! ### the invariant -/
 
-def pendN (b : Bool) : Nat := if b then 1 else 0
-@[simp] theorem pendN_true : pendN true = 1 := rfl
-@[simp] theorem pendN_false : pendN false = 0 := rfl
-theorem pendN_le (b : Bool) : pendN b ≤ 1 := by cases b <;> simp
 
 structure WakeInv (s : State) : Prop where
   lockUndo : s.lock = true → s.undo = []
   lvlOk    : ∀ t ∈ s.undo, t.lvl < nPrio
-  K        : s.stop = false → s.undo.length ≤ nWoken s + pendN s.pend ∨ nWaiting s = 0
+  K        : s.stop = false → s.undo.length ≤ nWoken s + s.pend ∨ nWaiting s = 0
 
 /-- nothing the invariant reads changes, except that the queue may shrink -/
 theorem WakeInv.congr {s s' : State} (h : WakeInv s) (h1 : s'.lock = s.lock) (h2 : ∀ t ∈ s'.undo, t ∈ s.undo)
@@ -220,7 +216,7 @@ theorem WakeInv.afterPred {s : State} (h : WakeInv s) (w : Nat) (hw : w < s.nW) 
           rw [e1]
           rcases h.K hs0 with a | a
           · left
-            show (removeId s.undo t.id).length ≤ nWoken _ + pendN s.pend
+            show (removeId s.undo t.id).length ≤ nWoken _ + s.pend
             have : (if (s.pc w).isWoken = true then 1 else 0) ≤ 1 := by split <;> omega
             omega
           · right; exact a
@@ -262,12 +258,12 @@ theorem WakeInv.step {s : State} (h : WakeInv s) (hw : WorkerInv s) (hl : LockIn
   cases st with
   | execute prio cb =>
     simp only [valid, Bool.and_eq_true, Bool.not_eq_true'] at hv
-    have hlock := hv.1.1
+    have hlock := hv.1
     simp only [Tbox.C05.step]
     split
     · exact h
     · have h1 : WakeInv { s with undo := s.undo ++ [{ id := s.nextTask, lvl := levelOf prio, cb := cb }],
-                                 nextTask := s.nextTask + 1, pend := true } := by
+                                 nextTask := s.nextTask + 1, pend := s.pend + 1 } := by
         constructor
         · intro hl'; simp only at hl'; rw [hlock] at hl'; cases hl'
         · intro t ht
@@ -277,9 +273,8 @@ theorem WakeInv.step {s : State} (h : WakeInv s) (hw : WorkerInv s) (hl : LockIn
         · intro hs
           rcases h.K hs with a | a
           · left
-            show (s.undo ++ [_]).length ≤ nWoken s + pendN true
-            have : pendN s.pend = 0 := by rw [hv.2]; rfl
-            simp only [List.length_append, List.length_cons, List.length_nil, pendN_true]
+            show (s.undo ++ [_]).length ≤ nWoken s + (s.pend + 1)
+            simp only [List.length_append, List.length_cons, List.length_nil]
             omega
           · right; exact a
       split
@@ -323,7 +318,7 @@ theorem WakeInv.step {s : State} (h : WakeInv s) (hw : WorkerInv s) (hl : LockIn
   | notifyOne ow =>
     cases ow with
     | none =>
-      simp only [valid, Bool.and_eq_true, noWaiter, List.all_eq_true, List.mem_range, bne_iff_ne, ne_eq] at hv
+      simp only [valid, Bool.and_eq_true, noWaiter, List.all_eq_true, List.mem_range, bne_iff_ne, ne_eq, decide_eq_true_eq] at hv
       refine ⟨h.lockUndo, h.lvlOk, fun _ => Or.inr ?_⟩
       refine cntF_zero_of _ _ (fun i hi => ?_)
       have := hv.2 i hi
@@ -331,8 +326,8 @@ theorem WakeInv.step {s : State} (h : WakeInv s) (hw : WorkerInv s) (hl : LockIn
       cases hp : s.pc i <;> simp_all [PC.isWaiting]
     | some w =>
       simp only [valid, Bool.and_eq_true, decide_eq_true_eq, beq_iff_eq] at hv
-      have e1 := cnt_setPc { s with pend := false } w .woken PC.isWoken hv.1.2
-      have e2 := cnt_setPc { s with pend := false } w .woken PC.isWaiting hv.1.2
+      have e1 := cnt_setPc { s with pend := s.pend - 1 } w .woken PC.isWoken hv.1.2
+      have e2 := cnt_setPc { s with pend := s.pend - 1 } w .woken PC.isWaiting hv.1.2
       simp only [hv.2, PC.isWoken, PC.isWaiting, Bool.false_eq_true, ↓reduceIte, Nat.add_zero] at e1 e2
       constructor
       · exact h.lockUndo
@@ -340,12 +335,12 @@ theorem WakeInv.step {s : State} (h : WakeInv s) (hw : WorkerInv s) (hl : LockIn
       · intro hs
         left
         have hk := h.K hs
-        have e1' : nWoken (setPc { s with pend := false } w .woken) = nWoken s + 1 := e1
-        show s.undo.length ≤ nWoken (setPc { s with pend := false } w .woken) + pendN false
+        have e1' : nWoken (setPc { s with pend := s.pend - 1 } w .woken) = nWoken s + 1 := e1
+        show s.undo.length ≤ nWoken (setPc { s with pend := s.pend - 1 } w .woken) + (s.pend - 1)
         rw [e1']
         rcases hk with a | a
-        · have := pendN_le s.pend
-          simp only [pendN_false]; omega
+        · have := hv.1.1
+          omega
         · have := cntF_zero a w hv.1.2
           simp [hv.2, PC.isWaiting] at this
   | join w => exact h.of_eq rfl rfl rfl rfl rfl rfl
@@ -387,7 +382,7 @@ theorem WakeInv.step {s : State} (h : WakeInv s) (hw : WorkerInv s) (hl : LockIn
     · intro hs
       left
       have e1' : nWoken (setPc s w .woken) = nWoken s + 1 := e1
-      show s.undo.length ≤ nWoken (setPc s w .woken) + pendN s.pend
+      show s.undo.length ≤ nWoken (setPc s w .woken) + s.pend
       rw [e1']
       rcases h.K hs with a | a
       · omega
